@@ -41,7 +41,25 @@ def eval_call(I, node, frame):
             return eval_quant(I, node, frame, fn.id)
         if fn.id == 'implies' and (I.spec or frame.module == 'ghost'):
             a = I.truth(I.eval(node.args[0], frame))
-            b = I.truth(I.eval(node.args[1], frame))
+            sa = z3.simplify(a)
+            if z3.is_false(sa):
+                return mk_bool(True)          # antecedent impossible on this path: the consequent is not evaluated
+            # the consequent is evaluated under the antecedent (class narrowing, optional fields, kinds)
+            I.path.pc.append(a)
+            try:
+                try:
+                    b = I.truth(I.eval(node.args[1], frame))
+                except (OutOfSubset, StaleContract, SymRaise):
+                    if not I.path._feasible(z3.BoolVal(True)):
+                        b = z3.BoolVal(True)     # consequent ill-formed only where the antecedent is impossible
+                    else:
+                        raise
+            finally:
+                # remove exactly the antecedent pushed above (forks inside may have appended after it)
+                idx = max(i for i, c in enumerate(I.path.pc) if c is a)
+                extra = I.path.pc[idx + 1:]
+                del I.path.pc[idx:]
+                I.path.pc.extend(extra)
             return mk_bool(z3.Implies(a, b))
         if fn.id == 'ite' and I.spec:
             c = I.truth(I.eval(node.args[0], frame))
